@@ -337,6 +337,12 @@ type eff struct {
 	value *big.Int
 	ok    bool
 	body  []*eff
+	// SELFDESTRUCT nodes: the executing contract, the balance opSuicide moved, and the contract's
+	// ONG balance right after StateDB.Suicide returned
+	from    common.Address
+	sdMoved *big.Int
+	sdAfter *big.Int
+	repeat  bool // the same contract had already executed a SELFDESTRUCT in this transaction
 	// a CREATE / CREATE2 instruction was started in this frame and evm.create has not (yet) told the
 	// tracer about it: the early exits (insufficient balance, depth, address collision) stay silent
 	pending *eff
@@ -398,6 +404,25 @@ type spyTracer struct {
 	suicided []common.Address
 	sdSelf   bool // a SELFDESTRUCT whose beneficiary is the executing contract was executed
 	sdAny    bool
+	sdSeen   map[common.Address]int
+	sdLog    []*eff // every executed SELFDESTRUCT in execution order (reverted ones included)
+}
+
+// selfBurn is the amount the effect tree says was destroyed by SELFDESTRUCTs whose beneficiary is
+// the executing contract itself and whose enclosing frames all succeeded (positive evidence for the
+// known finding); every other change of the ONG sum by the interpreter is unexplained.
+func selfBurn(e *eff, alive bool) *big.Int {
+	t := new(big.Int)
+	if e.sd {
+		if alive && e.to == e.from && e.sdMoved != nil {
+			t.Add(t, e.sdMoved)
+		}
+		return t
+	}
+	for _, b := range e.body {
+		t.Add(t, selfBurn(b, alive && e.ok))
+	}
+	return t
 }
 
 func (t *spyTracer) CaptureStart(env *evm.EVM, from, to ethcomm.Address, create bool, input []byte, gas uint64, value *big.Int) {
@@ -459,7 +484,15 @@ func (t *spyTracer) CaptureEnter(typ evm.OpCode, from, to ethcomm.Address, input
 	var f *eff
 	switch typ {
 	case evm.SELFDESTRUCT: // opSuicide reports itself as a frame: from = executing contract, to = beneficiary
-		cur.body = append(cur.body, &eff{sd: true, to: common.Address(to)})
+		// (called after AddBalance and StateDB.Suicide: the contract's balance must be zero now)
+		if t.sdSeen == nil {
+			t.sdSeen = map[common.Address]int{}
+		}
+		n := &eff{sd: true, to: common.Address(to), from: common.Address(from), sdMoved: v,
+			sdAfter: new(big.Int).Set(t.statedb.GetBalance(from)), repeat: t.sdSeen[common.Address(from)] > 0}
+		t.sdSeen[common.Address(from)]++
+		cur.body = append(cur.body, n)
+		t.sdLog = append(t.sdLog, n)
 		f = &eff{dummy: true}
 	case evm.CALL:
 		f = &eff{kind: "KCall", to: common.Address(to), value: v}
